@@ -749,9 +749,15 @@ pub fn gen_atom(r: &mut Rng) -> String {
             (0..n).map(|_| (b'a' + r.below(26) as u8) as char).collect()
         }
         1 => {
-            // long-ish atom up to 255 bytes
-            let n = r.range(200, 255) as usize;
-            (0..n).map(|_| (b'a' + r.below(26) as u8) as char).collect()
+            if r.chance(1, 3) {
+                // at most 255 characters but more than 255 bytes
+                let c = *r.pick(&['é', '日', 'ß']);
+                c.to_string().repeat(r.range(130, 255) as usize)
+            } else {
+                // long-ish atom up to 255 bytes
+                let n = r.range(200, 255) as usize;
+                (0..n).map(|_| (b'a' + r.below(26) as u8) as char).collect()
+            }
         }
         _ => (*r.pick(ATOM_POOL)).to_string(),
     }
